@@ -18,7 +18,13 @@ def run_one(kind, name, consts, liveness=True, workers=4, timeout=900, invariant
     inv = invariants or (CINV if kind == "compress" else XINV)
     tla, cfg = vlib.mc_instance(d, "I_" + name, base, consts, invariants=inv,
                                 properties=["Live"] if liveness else [], spec="FairSpec" if liveness else "Spec")
-    r = vlib.tlc(d, tla, cfg, workers=workers, timeout=timeout, xmx=xmx)
+    r = vlib.tlc(d, tla, cfg, workers=workers, timeout=timeout, xmx=xmx, allow_timeout=True)
+    r.liveness = liveness
+    if r.timed_out and liveness:
+        # the fairness check did not finish in time: at least the safety part (deadlock, capacities, conservation, order)
+        tla, cfg = vlib.mc_instance(d, "S_" + name, base, consts, invariants=inv, properties=[], spec="Spec")
+        r = vlib.tlc(d, tla, cfg, workers=workers, timeout=timeout, xmx=xmx, allow_timeout=True)
+        r.liveness = False
     return name, consts, r
 
 
